@@ -11,9 +11,32 @@ buffer size 1..(longest record + 2), against the pure-Python model of bounded/fa
   * streaming the derived assembly back (FastaStream.write_assembly) reproduces every record with only
     non-ACGT symbols replaced by N
   * duplicate record names and files without records raise
+
+Records without residues (a header line directly followed by the next header line or by the end of the file;
+`samtools faidx` lists them with length 0).  Such a file is well formed in the sense of the statement (every
+record trivially has a uniform line width), so the clauses are read for them as follows:
+
+  * indexing lists the record, in file order, with residue count 0 and the offset at which its first residue
+    would stand: the byte after its header line (= end of file when the header is the unterminated last line).
+    The record has no line, hence columns four and five are not determined by the file and are not judged.
+  * the index entry of every record of the file can be looked up by name (FastaIndex.get_info), also for an
+    empty record: an entry that is listed in the index / .fai is not "missing".
+  * the derived assembly returned by index_fasta_file has one scaffold per record in file order; the tiling
+    of an empty record is empty, i.e. its scaffold has no rows; streaming that assembly back reproduces the
+    record as a header without sequence lines.
+  * a name that occurs twice is a duplicate record name whether or not one or both copies are empty: the
+    file must be rejected.
+  * NOT judged (the unchanged tree misbehaves, see the report of the fourth gap-closing round): fetching the
+    residues of an empty record (get_fasta_seq / sequence_bytes raise ZeroDivisionError because the entry has
+    0 residues per line), and the presence of empty records in the assembly *reloaded from the .agp cache*
+    (AGP has no way of writing an object without rows, so the reloaded assembly has no scaffold for them and
+    streaming it back omits them).  In the cached assembly a scaffold for an empty record may therefore be
+    absent; if present it must have no rows.  Everything else about files containing empty records (all
+    other records, the .fai, get_info) is judged as usual.
 """
 
 import io
+import itertools
 import os
 import pathlib
 import random
@@ -27,6 +50,25 @@ from . import fasta_gen as G
 from .common import Collector
 
 SMALL = 14  # records up to this length get every interval fetched
+
+
+class Case(G.FastaCase):
+    """
+    FastaCase whose "no final newline" also covers a last record without residues: then the last line of the
+    file is that record's header and it is the header that lacks its terminator (fasta_gen's renderer only
+    ever leaves the terminator off a sequence line)
+    """
+
+    def render(self):
+        data, layout = super().render()
+        if self.records and not self.records[-1].seq and not self.final_newline:
+            data = data[: -len(self.eol)]
+            layout[-1]["offset"] = len(data)
+        return data, layout
+
+
+def as_case(case):
+    return Case(case.records, case.width, case.eol, case.final_newline)
 
 
 def close_index(fi):
@@ -47,8 +89,11 @@ def rows_of(scaffold):
     return out
 
 
-def check_index(case, layout, idx, asm, what):
-    """index + derived assembly against the model; returns messages"""
+def check_index(case, layout, idx, asm, what, reloaded=False):
+    """
+    index + derived assembly against the model; returns messages.  reloaded: the assembly was read back from
+    the .agp cache, in which a rowless scaffold (empty record) cannot be written: see the module docstring
+    """
     msgs = []
     got_names = list(idx)
     want_names = [r.name for r in case.records]
@@ -59,6 +104,9 @@ def check_index(case, layout, idx, asm, what):
         got = (info.length, info.file_offset, info.residues_per_line, info.max_line_length)
         want = (lay["length"], lay["offset"], lay["line_residues"], lay["line_bytes"])
         ok = got == want
+        if lay["length"] == 0:
+            # a record without residues has no line: only residue count and offset are determined by the file
+            ok = got[:2] == want[:2]
         if not ok and not lay["first_line_terminated"]:
             # the only line of this record has no terminator: the fifth column is not determined by the file
             ok = got[:3] == want[:3] and got[3] in (want[2], want[3])
@@ -67,10 +115,17 @@ def check_index(case, layout, idx, asm, what):
                 f"{what}: faidx row of {lay['name']} is (length, offset, residues/line, bytes/line) = {got}, file has {want}"
             )
     sc_names = [s.name for s in asm.scaffolds]
+    records, scaffolds = case.records, asm.scaffolds
+    if reloaded:
+        empty = {r.name for r in case.records if not r.seq}
+        scaffolds = [s for s in asm.scaffolds if not (s.name in empty and not s.rows)]
+        records = [r for r in case.records if r.seq]
+        sc_names = [s.name for s in scaffolds]
+        want_names = [r.name for r in records]
     if sc_names != want_names:
         msgs.append(f"{what}: assembly scaffolds {sc_names} != record names {want_names}")
         return msgs
-    for r, sc in zip(case.records, asm.scaffolds):
+    for r, sc in zip(records, scaffolds):
         want = [("G", t[1]) if t[0] == "G" else ("F", r.name, t[1], t[2], 1) for t in G.tiling(r.seq)]
         got = rows_of(sc)
         if got != want:
@@ -78,13 +133,14 @@ def check_index(case, layout, idx, asm, what):
     return msgs
 
 
-def check_stream_back(case, fi, asm, line_length, what):
+def check_stream_back(case, fi, asm, line_length, what, reloaded=False):
     out = io.BytesIO()
     try:
         FastaStream(out, fi, line_length=line_length).write_assembly(asm)
     except Exception as e:  # noqa: BLE001
         return [f"{what}: streaming the derived assembly raised {e!r}"]
-    want = [(r.name, G.masked(r.seq)) for r in case.records]
+    have = {s.name for s in asm.scaffolds}
+    want = [(r.name, G.masked(r.seq)) for r in case.records if r.seq or not reloaded or r.name in have]
     return [f"{what}: streamed back, {m}" for m in G.compare_written_fasta(out.getvalue(), want, line_length)]
 
 
@@ -93,6 +149,10 @@ def check_random_access(case, fi, what):
     for r in case.records:
         try:
             info = fi.get_info(r.name)
+            if info.length != len(r.seq):
+                msgs.append(f"{what}: get_info({r.name}) has residue count {info.length}, record has {len(r.seq)}")
+            if not r.seq:
+                continue  # no interval to fetch (and fetching the whole empty record is not judged, see docstring)
             whole = fi.get_fasta_seq(r.name)
             if whole.sequence != r.seq or whole.name != r.name:
                 msgs.append(f"{what}: get_fasta_seq({r.name}) = {whole.sequence[:40]!r}, record is {r.seq[:40]!r}")
@@ -109,7 +169,10 @@ def check_random_access(case, fi, what):
                     msgs.append(f"{what}: residues {s}..{e} of {r.name} fetched as {got[:30]!r}, file has {r.seq[s - 1 : e][:30]!r}")
                     break
         except Exception as e:  # noqa: BLE001
-            msgs.append(f"{what}: random access to {r.name} raised {e!r}")
+            if r.seq:
+                msgs.append(f"{what}: random access to {r.name} raised {e!r}")
+            else:
+                msgs.append(f"{what}: looking up the index entry of {r.name}, a record without residues that the file contains, raised {e!r}")
     return msgs
 
 
@@ -144,8 +207,8 @@ def check_cache_and_access(case, layout, path):
         msgs += check_index(case, layout, fi.index, fi.assembly, "auto_load")
         msgs += check_random_access(case, fi, "auto_load")
         fai_rows = [ln.split("\t") for ln in pathlib.Path(str(path) + ".fai").read_text().split("\n") if ln]
-        want_rows = [[lay["name"], str(lay["length"]), str(lay["offset"]), str(lay["line_residues"])] for lay in layout]
-        if [r[:4] for r in fai_rows] != want_rows or any(len(r) != 5 for r in fai_rows):
+        want_rows = [[lay["name"], str(lay["length"]), str(lay["offset"]), str(lay["line_residues"])][: 4 if lay["length"] else 3] for lay in layout]
+        if [r[: len(w)] for r, w in zip(fai_rows, want_rows)] != want_rows or len(fai_rows) != len(want_rows) or any(len(r) != 5 for r in fai_rows):
             msgs.append(f".fai rows {fai_rows} do not match (name, length, offset, residues/line) {want_rows}")
     finally:
         close_index(fi)
@@ -155,14 +218,32 @@ def check_cache_and_access(case, layout, path):
     fi2 = FastaIndex(path, 3)
     try:
         fi2.auto_load()
-        msgs += check_index(case, layout, fi2.index, fi2.assembly, "cached index")
+        msgs += check_index(case, layout, fi2.index, fi2.assembly, "cached index", reloaded=True)
         msgs += check_random_access(case, fi2, "cached index")
-        msgs += check_stream_back(case, fi2, fi2.assembly, case.width, "cached index")
+        msgs += check_stream_back(case, fi2, fi2.assembly, case.width, "cached index", reloaded=True)
     except Exception as e:  # noqa: BLE001
         msgs.append(f"loading the cached index raised {e!r}")
     finally:
         close_index(fi2)
     return msgs
+
+
+def why_rejected(data):
+    """the reason the statement gives for rejecting these bytes, from a line-by-line reading of them"""
+    names, lengths = [], []
+    for ln in data.replace(b"\r\n", b"\n").split(b"\n"):
+        if ln.startswith(b">"):
+            names.append(ln[1:].split()[0].decode("latin-1") if ln[1:].split() else "")
+            lengths.append(0)
+        elif lengths:
+            lengths[-1] += len(ln)
+    if not names:
+        return "a file without records"
+    for i, nm in enumerate(names):
+        if nm in names[:i]:
+            copies = [lengths[j] for j, x in enumerate(names) if x == nm]
+            return f"a file with {len(copies)} records named {nm!r} (residue counts {copies}: duplicate record name)"
+    return "a malformed file"
 
 
 def check_rejected(data, path):
@@ -173,7 +254,7 @@ def check_rejected(data, path):
                 index_fasta_file(path, bs)
             except Exception:  # noqa: BLE001
                 continue
-            return f"index_fasta_file(buffer {bs}) accepted a file that must be rejected"
+            return f"index_fasta_file(buffer {bs}) accepted {why_rejected(data)}, which must be rejected with an error"
         return None
     finally:
         G.remove_with_caches(path)
@@ -184,7 +265,7 @@ def replay(inp):
         path = d / "r.fa"
         if inp["kind"] == "reject":
             return check_rejected(inp["data"].encode("latin-1"), path)
-        case = G.FastaCase.from_spec(inp["case"])
+        case = Case.from_spec(inp["case"])
         layout = case.write(path)
         if inp["kind"] == "cache":
             msgs = check_cache_and_access(case, layout, path)
@@ -194,7 +275,7 @@ def replay(inp):
 
 
 def nontrivial(case):
-    return any(len(r.seq) > case.width or len(G.tiling(r.seq)) > 1 for r in case.records)
+    return any(len(r.seq) > case.width or len(G.tiling(r.seq)) > 1 or not r.seq for r in case.records)
 
 
 def run_case(case, col, path, buffers, sample=False, cache=True):
@@ -228,9 +309,11 @@ def run(tier, seed, **opts):
         "FASTA files rendered from a model (1-3 records; residue strings = every ACGT/other mask up to "
         f"{max_mask} residues filled from aperiodic letter strings, every string over AcGtNnR up to {max_letters}, "
         "random longer ones with runs ending on line boundaries) x line widths 1..5,60 x LF/CRLF x final newline "
-        "present/absent x descriptions, each indexed with every buffer size 1..longest record+2 and 250000; "
+        "present/absent x descriptions, each indexed with every buffer size 1..longest record+2 and 250000; files of "
+        "1-3 records in which every non-empty subset of the records has no residues (header directly followed by "
+        "the next header or by end of file, terminated or not) and random files with such records; "
         "one evaluation = one (file, buffer) or (file, cache round trip); non-trivial = distinct (file, buffer) "
-        "whose file has a record of more than one line or more than one run"
+        "whose file has a record of more than one line, more than one run, or no residues"
     )
     with G.quiet_logging(), G.workdir() as d:
         path = d / "t.fa"
@@ -270,13 +353,68 @@ def run(tier, seed, **opts):
             if quick and len(bufs) > 14:
                 bufs = sorted(rng.sample(bufs, 14))
             run_case(case, col, path, bufs, sample=k == 0, cache=k % 4 == 0)
-        # 4. files that must be rejected
+        # 4. records without residues, in every position (first / middle / last / all), beside one-line, multi-line
+        #    and N-only neighbours, every layout (so also: header as the unterminated last line of the file)
+        n_empty_random = 40 if quick else 1500
+        room = len(col.failures) + 8  # leave room in the failure list for the families below
+        crowded = lambda: col.full or len(col.failures) >= room  # noqa: E731
+        fillers = [b"acNGt", b"NtGACGTAcgtnnAC", b"NNN"] if quick else [b"acNGt", b"NtGACGTAcgtnnAC", b"NNN", b"A", b"ACGTACGTAC", b"nACGTACGTACg"]
+        k = 0
+        for nrec in (1, 2, 3):
+            for pattern in itertools.product((True, False), repeat=nrec):  # True = this record is empty
+                if not any(pattern) or crowded():
+                    continue
+                for w, eol, fin in G.layouts((1, 3, 60) if quick else (1, 2, 3, 4, 5, 60)):
+                    for f0 in range(1 if quick else len(fillers)):
+                        k += 1
+                        recs = [
+                            G.Rec(f"e{i + 1}" if e else f"s{i + 1}", b"" if e else fillers[(f0 + i + k) % len(fillers)], G.DESCRIPTIONS[(k + i) % len(G.DESCRIPTIONS)])
+                            for i, e in enumerate(pattern)
+                        ]
+                        case = Case(recs, w, eol, fin)
+                        longest = max(len(r.seq) for r in recs)
+                        run_case(case, col, path, [*range(1, min(longest, 6) + 3), 250_000], sample=k == 30, cache=True)
+        for k in range(n_empty_random):
+            if crowded():
+                break
+            case = as_case(G.random_case(rng, max_records=4, max_len=60 if quick else 200))
+            hit = False
+            for r in case.records:
+                if rng.random() < 0.4:
+                    r.seq = b""
+                    hit = True
+            if not hit:
+                rng.choice(case.records).seq = b""
+            bufs = G.interesting_buffers(case)
+            if len(bufs) > 10:
+                bufs = sorted(rng.sample(bufs, 10))
+            run_case(case, col, path, bufs, cache=k % 2 == 0)
+        # 5. files that must be rejected
         rejected = [b"", b"\n", b"ACGT\n", b"ACGT\nAC\n"]
         for eol in (b"\n", b"\r\n"):
             for a, b in ((b"ACGT", b"ACGT"), (b"ACGTN", b"TT"), (b"N", b"ACGTACGTAC")):
                 rejected.append(b">x" + eol + a + eol + b">x" + eol + b + eol)
                 rejected.append(b">x one" + eol + a + eol + b">y" + eol + b"AC" + eol + b">x two" + eol + b + eol)
                 rejected.append(b">y" + eol + a + eol + b">x" + eol + b"AC" + eol + b">x" + eol + b)
+        # duplicate names where one or both copies are records without residues (copies adjacent or not, the
+        # empty copy first / second / last line of the file, with descriptions, with and without final newline)
+        for eol in (b"\n", b"\r\n"):
+            dup_empty = [
+                (b">x", b">x", b"ACGT"),
+                (b">x", b">x", b"ACGTN", b"AC"),
+                (b">x one", b">y", b"AC", b">x two", b"GGCCGGCC"),
+                (b">x", b"ACGT", b">x", b">y", b"AC"),
+                (b">y", b"AC", b">x", b"NACGT", b">x"),
+                (b">x", b"ACGT", b">x"),
+                (b">x", b">x"),
+                (b">y", b"ACGT", b">x", b">x"),
+                (b">x", b">y", b">x"),
+                (b">x first", b">y", b"AC", b"G", b">x\tsecond"),
+                (b">x", b">x", b">x", b"AC"),
+            ]
+            for lines in dup_empty:
+                rejected.append(eol.join(lines) + eol)
+                rejected.append(eol.join(lines))
         for data in rejected:
             msg = check_rejected(data, path)
             inp = {"kind": "reject", "data": data.decode("latin-1")}
@@ -287,7 +425,9 @@ def run(tier, seed, **opts):
         bounds=(
             f"records <= 3; masks exhaustive to length {max_mask} x 24 layouts; letter strings exhaustive to length "
             f"{max_letters}; {n_random} random files with records <= {120 if quick else 400} residues; buffer sizes 1..len+2 "
-            f"(exhaustive part) or 1,2,primes,width+-1,run/record length+-1,250000 (random part); {len(rejected)} malformed files"
+            f"(exhaustive part) or 1,2,primes,width+-1,run/record length+-1,250000 (random part); every placement of empty "
+            f"records among 1-3 records x layouts and {n_empty_random} random files with empty records; {len(rejected)} malformed files "
+            "(no records; duplicate names incl. copies without residues)"
         ),
         exhaustive=False,
     )
